@@ -9,13 +9,68 @@ import (
 )
 
 type (
-	Int32  = atomic.Int32
-	Int64  = atomic.Int64
-	Uint32 = atomic.Uint32
-	Uint64 = atomic.Uint64
-	Bool   = atomic.Bool
-	Value  = atomic.Value
+	Value = atomic.Value
 )
+
+// The typed atomics are wrappers so that their methods are scheduling points as well.
+type Int32 struct{ v atomic.Int32 }
+
+func (x *Int32) pt(l string)        { vsched.AtomicPoint(unsafe.Pointer(x), l) }
+func (x *Int32) Load() int32        { x.pt("atomic.load"); return x.v.Load() }
+func (x *Int32) Store(n int32)      { x.pt("atomic.store"); x.v.Store(n) }
+func (x *Int32) Add(d int32) int32  { x.pt("atomic.add"); return x.v.Add(d) }
+func (x *Int32) Swap(n int32) int32 { x.pt("atomic.swap"); return x.v.Swap(n) }
+func (x *Int32) CompareAndSwap(o, n int32) bool {
+	x.pt("atomic.cas")
+	return x.v.CompareAndSwap(o, n)
+}
+
+type Int64 struct{ v atomic.Int64 }
+
+func (x *Int64) pt(l string)        { vsched.AtomicPoint(unsafe.Pointer(x), l) }
+func (x *Int64) Load() int64        { x.pt("atomic.load"); return x.v.Load() }
+func (x *Int64) Store(n int64)      { x.pt("atomic.store"); x.v.Store(n) }
+func (x *Int64) Add(d int64) int64  { x.pt("atomic.add"); return x.v.Add(d) }
+func (x *Int64) Swap(n int64) int64 { x.pt("atomic.swap"); return x.v.Swap(n) }
+func (x *Int64) CompareAndSwap(o, n int64) bool {
+	x.pt("atomic.cas")
+	return x.v.CompareAndSwap(o, n)
+}
+
+type Uint32 struct{ v atomic.Uint32 }
+
+func (x *Uint32) pt(l string)          { vsched.AtomicPoint(unsafe.Pointer(x), l) }
+func (x *Uint32) Load() uint32         { x.pt("atomic.load"); return x.v.Load() }
+func (x *Uint32) Store(n uint32)       { x.pt("atomic.store"); x.v.Store(n) }
+func (x *Uint32) Add(d uint32) uint32  { x.pt("atomic.add"); return x.v.Add(d) }
+func (x *Uint32) Swap(n uint32) uint32 { x.pt("atomic.swap"); return x.v.Swap(n) }
+func (x *Uint32) CompareAndSwap(o, n uint32) bool {
+	x.pt("atomic.cas")
+	return x.v.CompareAndSwap(o, n)
+}
+
+type Uint64 struct{ v atomic.Uint64 }
+
+func (x *Uint64) pt(l string)          { vsched.AtomicPoint(unsafe.Pointer(x), l) }
+func (x *Uint64) Load() uint64         { x.pt("atomic.load"); return x.v.Load() }
+func (x *Uint64) Store(n uint64)       { x.pt("atomic.store"); x.v.Store(n) }
+func (x *Uint64) Add(d uint64) uint64  { x.pt("atomic.add"); return x.v.Add(d) }
+func (x *Uint64) Swap(n uint64) uint64 { x.pt("atomic.swap"); return x.v.Swap(n) }
+func (x *Uint64) CompareAndSwap(o, n uint64) bool {
+	x.pt("atomic.cas")
+	return x.v.CompareAndSwap(o, n)
+}
+
+type Bool struct{ v atomic.Bool }
+
+func (x *Bool) pt(l string)      { vsched.AtomicPoint(unsafe.Pointer(x), l) }
+func (x *Bool) Load() bool       { x.pt("atomic.load"); return x.v.Load() }
+func (x *Bool) Store(n bool)     { x.pt("atomic.store"); x.v.Store(n) }
+func (x *Bool) Swap(n bool) bool { x.pt("atomic.swap"); return x.v.Swap(n) }
+func (x *Bool) CompareAndSwap(o, n bool) bool {
+	x.pt("atomic.cas")
+	return x.v.CompareAndSwap(o, n)
+}
 
 func AddInt32(p *int32, d int32) int32 {
 	vsched.AtomicPoint(unsafe.Pointer(p), "atomic.add")
